@@ -285,7 +285,7 @@ def main(tier):
             '(program, config, request kinds, stop-count bucket, edit pattern)')
     V = Verdict('C01', tier, rule)
     V.minima = {'stops_checked': 150, 'bp_edits': 20, 'exits_checked': 5} if tier == 'quick' else \
-        {'stops_checked': 5000, 'bp_edits': 600, 'exits_checked': 300}
+        {'stops_checked': 2500, 'bp_edits': 600, 'exits_checked': 150}
     V.assumptions = ['generated programs are deterministic and single-threaded (trace validated twice in thorough tier)',
                      'reference tracer classifies instructions by ptrace single-step only',
                      'breakpoints only on instruction boundaries taken from the independent line-table decode']
@@ -294,7 +294,7 @@ def main(tier):
         specs = [(i, h, cfgs[i % 2], tier) for i in range(6) for h in range(8)]
     else:
         cfgs = [dict(tc=tc, opt=o, dwarf=d, pie=True) for tc in ('1.89', '1.95') for o in (0, 1) for d in (4, 5)]
-        specs = [(i, h, cfgs[(i + h) % len(cfgs)], tier) for i in range(30) for h in range(16)]
+        specs = [(i, h, cfgs[(i + h) % len(cfgs)], tier) for i in range(30) for h in range(8)]
     # prepare programs first (compile + trace in parallel), then run histories
     progs = sorted({(s[0], tuple(sorted(s[2].items())), tier == 'thorough') for s in specs})
     common.parallel_map(_prep, progs)
